@@ -260,6 +260,9 @@ def finish(mod, check_id, tier, seed, results, inconclusive, wall):
             else:
                 extra[k].append(v)
     known = [k for k in load_known() if check_id in k.get("properties", []) and k.get("status") == "open"]
+    for k in known:
+        if k["predicate"] not in F.PREDICATES:
+            inconclusive.append(f"known finding {k['id']} names an unknown predicate {k['predicate']!r}")
     new_viol, known_hits = [], collections.OrderedDict()
     for v in violations:
         hit = None
